@@ -877,4 +877,70 @@ Section Proofs.
     rewrite app_nil_r in Hsplit. subst taken. conj; auto.
     apply covered_Q in Ec. symmetry in Ec. apply N.leb_gt in Ec. exact Ec.
   Qed.
+
+  (* ----------------------------------------------------------------------------------------- *)
+  (* Completeness of the largest-first passes: every index is selectable or selected *)
+
+  Definition Cover (aidx : list nat) (st : sel_state) : Prop :=
+    forall i, (i < length avail)%nat -> In i aidx \/ In i (st_trace st).
+
+  Lemma lf_loop_cover sel todo : forall aidx st st' aidx',
+    Inv st -> Cover aidx st -> lf_loop ffi sel avail todo aidx st = (st', Done aidx') -> Cover aidx' st'.
+  Proof.
+    induction todo as [|i todo IH]; intros aidx st st' aidx' I C H; cbn [lf_loop] in H.
+    - inversion H; subst. exact C.
+    - ob H. destruct a; [inversion H; subst; exact C|].
+      destruct (nth_error avail i) as [u|] eqn:Eu; [|discriminate H].
+      destruct (add_input ffi true i u st) as [st1 r1] eqn:Ea. ob H. destruct a.
+      destruct (position i aidx) as [p|] eqn:Ep; [|discriminate H].
+      destruct (swap_remove p aidx) as [[x aidx1]|] eqn:Es; [|discriminate H].
+      destruct (add_input_ok _ _ _ _ I (Havail _ _ Eu) Ea) as [I1 [Ht _]].
+      destruct (swap_remove_perm _ _ _ _ Es) as [Hperm Hnth].
+      rewrite (position_nth _ _ _ Ep) in Hnth. inversion Hnth; subst x.
+      apply (IH aidx1 st1 st' aidx' I1); auto.
+      intros j Hj. rewrite Ht. destruct (C j Hj) as [Hin|Hin].
+      + apply (Permutation_in _ Hperm) in Hin. destruct Hin as [<-|Hin]; [right; apply in_or_app; right; left; reflexivity|left; exact Hin].
+      + right. apply in_or_app. left. exact Hin.
+  Qed.
+
+  Lemma lf_by_cover sel aidx st st' aidx' :
+    Inv st -> Cover aidx st -> lf_by ffi sel avail aidx st = (st', Done aidx') -> Cover aidx' st'.
+  Proof.
+    intros I C H. unfold lf_by in H.
+    destruct (lf_loop ffi sel avail (rev (lf_relevant sel avail aidx)) aidx st) as [st1 r1] eqn:El.
+    ob H. ob H. destruct a0; [|discriminate H]. inversion H; subst.
+    eapply lf_loop_cover; eauto.
+  Qed.
+
+  (* a pass that reports insufficiency has added every UTxO holding the quantity *)
+  Lemma lf_by_insufficient sel aidx st st' :
+    Inv st -> Bk aidx st -> Cover aidx st -> lf_by ffi sel avail aidx st = (st', Insufficient) ->
+    Inv st' /\ NoDup (st_trace st') /\
+    (forall i, (i < length avail)%nat -> has_key sel avail i = true -> In i (st_trace st')) /\
+    Q sel (st_in st') < Q sel (st_out st').
+  Proof.
+    intros I B C H. destruct (largest_first_complete _ _ _ _ I H) as [Htr [I' Hlt]].
+    destruct (lf_relevant_nodup sel aidx (bk_nd _ _ B)) as [Hn Hi].
+    conj; auto.
+    - rewrite Htr. apply NoDup_app_intro; auto; [apply B|].
+      intros x Hx Hr. apply (bk_disj _ _ B x); auto.
+    - intros i Hi' Hk. rewrite Htr. apply in_or_app. destruct (C i Hi') as [Hin|Hin]; [right|left; exact Hin].
+      apply -> in_rev. unfold lf_relevant.
+      apply (Permutation_in _ (Permutation_sym (stable_sort_perm _ _))). apply filter_In. auto.
+  Qed.
+
+  Lemma lf_multi_insufficient sels : forall aidx st st',
+    Inv st -> Bk aidx st -> Cover aidx st -> lf_multi ffi sels avail aidx st = (st', Insufficient) ->
+    exists sel, In sel sels /\ Inv st' /\ NoDup (st_trace st') /\
+      (forall i, (i < length avail)%nat -> has_key sel avail i = true -> In i (st_trace st')) /\
+      Q sel (st_in st') < Q sel (st_out st').
+  Proof.
+    induction sels as [|s sels IH]; intros aidx st st' I B C H; cbn [lf_multi] in H; [discriminate H|].
+    destruct (lf_by ffi s avail aidx st) as [st1 r1] eqn:E1.
+    destruct r1 as [aidx1| | | |]; cbn [obind] in H; try discriminate H.
+    - destruct (lf_by_ok _ _ _ _ _ I B E1) as [I1 [B1 _]].
+      pose proof (lf_by_cover _ _ _ _ _ I C E1) as C1.
+      destruct (IH _ _ _ I1 B1 C1 H) as [sel [Hin R]]. exists sel. split; [right; exact Hin|exact R].
+    - inversion H; subst st1. exists s. split; [left; reflexivity|]. apply (lf_by_insufficient _ _ _ _ I B C E1).
+  Qed.
 End Proofs.
